@@ -761,24 +761,53 @@ impl Sim {
             "read" => {
                 let h = cmd["h"].as_u64().unwrap() as u32;
                 let max = cmd["max"].as_u64().unwrap_or(1) as usize;
+                // `pre`: bytes already in the caller's ReadBuf (as read_exact / copy loops have);
+                // `via`: "read" = AsyncRead::poll_read, "buf" = AsyncBufRead::poll_fill_buf + consume
+                let pre = cmd["pre"].as_u64().unwrap_or(0) as usize;
+                let via = cmd["via"].as_str().unwrap_or("read").to_string();
                 let w = self.wakers.get(&format!("r:{e}:{h}"));
                 let mut cx = Context::from_waker(&w);
                 let Some(slot) = self.eps[i].streams.get_mut(&h) else { return false };
-                let mut buf = vec![0u8; max];
-                let mut rb = ReadBuf::new(&mut buf);
-                let p = Pin::new(&mut slot.s).poll_read(&mut cx, &mut rb);
-                let ev = match p {
-                    Poll::Pending => json!({"ev": "read", "e": e, "h": h, "max": max, "res": "pending", "n": 0, "w": 0, "off": 0, "okrun": true}),
-                    Poll::Ready(Ok(())) => {
-                        let got = rb.filled();
-                        if got.is_empty() {
-                            json!({"ev": "read", "e": e, "h": h, "max": max, "res": "eof", "n": 0, "w": 0, "off": 0, "okrun": true})
-                        } else {
-                            let (w, off, ok) = decode_run(got);
-                            json!({"ev": "read", "e": e, "h": h, "max": max, "res": "data", "n": got.len(), "w": w, "off": off, "okrun": ok})
+                let mk = |res: &str, got: &[u8]| {
+                    let (w, off, ok) = decode_run(got);
+                    json!({"ev": "read", "e": e, "h": h, "max": max, "pre": pre, "via": via, "res": res, "n": got.len(), "w": w, "off": off, "okrun": ok})
+                };
+                let ev = if via == "buf" {
+                    use tokio::io::AsyncBufRead;
+                    let p = Pin::new(&mut slot.s).poll_fill_buf(&mut cx);
+                    match p {
+                        Poll::Pending => mk("pending", &[]),
+                        Poll::Ready(Ok(sl)) => {
+                            if sl.is_empty() {
+                                mk("eof", &[])
+                            } else {
+                                let n = sl.len().min(max);
+                                let got = sl[..n].to_vec();
+                                Pin::new(&mut slot.s).consume(n);
+                                mk("data", &got)
+                            }
                         }
+                        Poll::Ready(Err(er)) => mk(&format!("ioerr:{:?}", er.kind()), &[]),
                     }
-                    Poll::Ready(Err(er)) => json!({"ev": "read", "e": e, "h": h, "max": max, "res": format!("ioerr:{:?}", er.kind()), "n": 0, "w": 0, "off": 0, "okrun": true}),
+                } else {
+                    let mut buf = vec![0xEEu8; pre + max];
+                    let mut rb = ReadBuf::new(&mut buf);
+                    rb.put_slice(&vec![0xEEu8; pre]);
+                    let p = Pin::new(&mut slot.s).poll_read(&mut cx, &mut rb);
+                    match p {
+                        Poll::Pending => mk("pending", &[]),
+                        Poll::Ready(Ok(())) => {
+                            let got = rb.filled()[pre.min(rb.filled().len())..].to_vec();
+                            if rb.filled().len() < pre || rb.filled()[..pre].iter().any(|b| *b != 0xEE) {
+                                mk("clobbered", &got)
+                            } else if got.is_empty() {
+                                mk("eof", &[])
+                            } else {
+                                mk("data", &got)
+                            }
+                        }
+                        Poll::Ready(Err(er)) => mk(&format!("ioerr:{:?}", er.kind()), &[]),
+                    }
                 };
                 self.emit(ev);
                 true
